@@ -160,31 +160,85 @@ def harness_bin(pkg):
 
 
 # ---------- Coq ----------
+# Layout: coq/<Dir>/*.v is one library with logical name <Dir> (Base, C16, ...), built by its own
+# coq_makefile Makefile; coq/<Dir>/DEPS lists the other libraries it imports (one per line).
+# coq/Props/Cxx.v (leaf property files) and generated files are compiled directly by the driver.
+def coq_dirs():
+    ds = []
+    for d in sorted(os.listdir(COQ)):
+        p = os.path.join(COQ, d)
+        if os.path.isdir(p) and d not in ("Props", "gen") and glob.glob(os.path.join(p, "*.v")):
+            ds.append(d)
+    return ds
+
+
 def qflags():
-    """-Q flags from coq/_CoqProject."""
     fl = []
-    for line in open(os.path.join(COQ, "_CoqProject")):
-        line = line.strip()
-        if line.startswith("-Q ") or line.startswith("-R "):
-            k, d, n = line.split()
-            fl += [k, os.path.join(COQ, d), n]
+    for d in coq_dirs():
+        fl += ["-Q", os.path.join(COQ, d), d]
     return fl
 
 
-def coq_make(ctx, targets, timeout=3000):
-    """Full .vo build (never -vos) of the given targets through coq_makefile's Makefile."""
-    t = time.time()
-    if not os.path.exists(os.path.join(COQ, "Makefile")) or \
-            os.path.getmtime(os.path.join(COQ, "Makefile")) < os.path.getmtime(os.path.join(COQ, "_CoqProject")):
-        rc, out = run("coq_makefile -f _CoqProject -o Makefile", cwd=COQ, timeout=120)
+def coq_deps(d):
+    p = os.path.join(COQ, d, "DEPS")
+    deps = ["Base"] if d != "Base" else []
+    if os.path.exists(p):
+        for line in open(p):
+            line = line.strip()
+            if line and not line.startswith("#") and line not in deps:
+                deps.append(line)
+    return deps
+
+
+def _dep_order(d, seen=None):
+    seen = seen if seen is not None else []
+    for x in coq_deps(d):
+        _dep_order(x, seen)
+    if d not in seen:
+        seen.append(d)
+    return seen
+
+
+def coq_files(d):
+    """The .v files of library d, in the order given by coq/<d>/FILES if present (else all)."""
+    return sorted(glob.glob(os.path.join(COQ, d, "*.v")))
+
+
+def cone_files(d):
+    fs = []
+    for x in _dep_order(d):
+        fs += coq_files(x)
+    return fs
+
+
+def coq_make(ctx, d, timeout=3000):
+    """Full .vo build (never -vos) of library d and, first, of the libraries it depends on."""
+    import fcntl
+    out_all = ""
+    for x in _dep_order(d):
+        t = time.time()
+        dirp = os.path.join(COQ, x)
+        with open(os.path.join(dirp, ".lock"), "w") as lk:
+            fcntl.flock(lk, fcntl.LOCK_EX)
+            lines = []
+            for y in _dep_order(x):
+                lines.append("-Q %s %s" % ("." if y == x else os.path.join("..", y), y))
+            lines += [os.path.basename(f) for f in coq_files(x)]
+            proj = "\n".join(lines) + "\n"
+            pp = os.path.join(dirp, "_CoqProject")
+            if not os.path.exists(pp) or open(pp).read() != proj or not os.path.exists(os.path.join(dirp, "Makefile")):
+                open(pp, "w").write(proj)
+                rc, out = run("coq_makefile -f _CoqProject -o Makefile", cwd=dirp, timeout=120)
+                if rc != 0:
+                    ctx.log(out)
+                    return False, out
+            rc, out = run(["make", "-j%d" % NCPU], cwd=dirp, timeout=timeout)
+        out_all += out
+        ctx.log("make coq/%s: rc=%d (%.0fs)" % (x, rc, time.time() - t))
         if rc != 0:
-            ctx.log(out)
-            return False, out
-    rc, out = run(["make", "-j%d" % NCPU] + list(targets), cwd=COQ, timeout=timeout)
-    ctx.log("make %s: rc=%d (%.0fs)" % (" ".join(targets), rc, time.time() - t))
-    if rc != 0:
-        ctx.log("\n".join(out.splitlines()[-30:]))
-    return rc == 0, out
+            ctx.log("\n".join(out.splitlines()[-30:]))
+            return False, out_all
+    return True, out_all
 
 
 def coqc_file(path, timeout=1200, extra_q=()):
